@@ -217,9 +217,11 @@ Definition dec_oev (x : sexp) : option oev :=
   | _ => None
   end.
 
+(* [nerrs]: the NUMBER of error diagnostics of the run, when the handler reports it (compared with the model's count) *)
 Inductive iobs :=
-| IObs (v : option xval) (errors : bool) (log : list oev)
+| IObsN (v : option xval) (errors : bool) (nerrs : option N) (log : list oev)
 | ICrash | IPanic | ILoadErr.
+Notation IObs v e lg := (IObsN v e _ lg) (only parsing).
 
 Definition dec_obs (x : sexp) : option iobs :=
   match x with
@@ -230,10 +232,19 @@ Definition dec_obs (x : sexp) : option iobs :=
       match atom_bool e, map_opt dec_oev lg with
       | Some e, Some lg =>
           match v with
-          | Atom "none" => Some (IObs None e lg)
-          | v => option_map (fun v => IObs (Some v) e lg) (dec_xval wire_fuel v)
+          | Atom "none" => Some (IObsN None e None lg)
+          | v => option_map (fun v => IObsN (Some v) e None lg) (dec_xval wire_fuel v)
           end
       | _, _ => None
+      end
+  | SList [Atom "obs"; v; e; SList lg; n] =>
+      match atom_bool e, map_opt dec_oev lg, atom_N n with
+      | Some e, Some lg, Some n =>
+          match v with
+          | Atom "none" => Some (IObsN None e (Some n) lg)
+          | v => option_map (fun v => IObsN (Some v) e (Some n) lg) (dec_xval wire_fuel v)
+          end
+      | _, _, _ => None
       end
   | _ => None
   end.
@@ -284,20 +295,26 @@ Definition model_fuel : nat := 400.
 Definition empty_def (d : envdef) : bool :=
   match ed_imports d, ed_values d with [], [] => true | _, _ => false end.
 
+(* the model's NUMBER of error diagnostics (the observation record keeps only "some / none") *)
+Definition run_nerr (fuel : nat) (W : world) (name : string) (d : envdef) : N :=
+  nerr (snd (eval_env W fuel "" name d st0)).
+
 Inductive cmp := CmpEq | CmpDiff | CmpSkip.   (* skip: the model flags the input as outside its fragment *)
 
 Definition compare_run (W : world) (name : string) (d : envdef) (o : iobs) : cmp :=
   match o with
   | ILoadErr => CmpSkip
   | ICrash | IPanic => CmpDiff
-  | IObs v e lg =>
+  | IObsN v e n lg =>
       if empty_def d then match v with None => CmpEq | Some _ => CmpDiff end
       else
         let r := run model_fuel W name d in
         if ob_oof r then CmpSkip
         else match v, ob_value r with
              | Some a, Some b =>
-                 if xeq a b && Bool.eqb e (ob_errors r) && log_matches (ob_log r) lg then CmpEq else CmpDiff
+                 if xeq a b && Bool.eqb e (ob_errors r) && log_matches (ob_log r) lg
+                    && match n with Some k => N.eqb k (run_nerr model_fuel W name d) | None => true end
+                 then CmpEq else CmpDiff
              | _, _ => CmpDiff
              end
   end.
